@@ -119,6 +119,7 @@ type Obs struct {
 	Dyn     [][]View      `json:"dyn_reads,omitempty"`      // the snapshot at every read of a dyn history
 	DynC    [][]View      `json:"dyn_comp_reads,omitempty"` // ... of the companion binding
 	Hk      [][]UpdCtxObs `json:"hk,omitempty"`             // per execution, per context
+	HkTypes [][]string    `json:"hk_types,omitempty"`       // the binding type of every context the hook is executed with
 	Note    string        `json:"note,omitempty"`
 }
 
@@ -832,7 +833,7 @@ func Gen(r *core.Rng, tier string) ([]core.In[Input], bool) {
 }
 
 var Driver = core.Driver[Input, Obs]{
-	Spec: core.Spec{Property: "C02", Imports: []string{"C02_Model", "C02_Spec", "C02_Comp", "C02_CompSpec", "C02_Win", "C02_WinSpec", "C02_Hook", "C02_HookSpec", "C02_Corr"}, Corr: "C02_Corr", Triggers: []string{"F25", "F26", "F32"}, ShrinkKey: "dyn_ops",
-		Rule: "snap: a real monitor on a fake cluster (static namespaces / all namespaces, nameSelector with repeated entries, initial objects, with and without jqFilter .data, keepFullObjectsInMemory true/false; object content = a part the filter selects + a label outside it, 35% of modifications touch only the latter) follows generated create/modify/delete histories over 3 namespaces x 3 names, Snapshot() at quiescence and after a restart compared entry by entry (identity, filterResult, object) with the matching objects of the cluster; upd: the real HookController.UpdateSnapshots over a reader that answers differently on every call, random include topologies and context arrays; grp: a real hook config with two kubernetes bindings sharing a group, named and unnamed (trigger F25); one ghost scenario (trigger F26); dyn: a real monitor with namespace.labelSelector (matchLabels or matchExpressions; its REAL namespace informer on the fake cluster, whose Namespace objects are kept equal to what a label-filtered watch shows; with and without nameSelector / jqFilter / keepFullObjectsInMemory) follows generated histories over 3 namespaces x 3 names of object create/modify/delete (objects moving between namespaces), namespaces created with or without the label / gaining or losing it / deleted (with their objects left behind, or deleted too), changes that keep a namespace matching, and operator restarts; namespaces matching at the start, at a restart and only later all stop matching and match again; Snapshot() at every read point (1-5 per history) compared entry by entry with the objects of the namespaces that match THEN; two histories in five run beside a companion binding of the same kind and names with static namespaces (created before or after the first binding's monitor, also at restarts; same or different debug name; its informers share the first binding's shared informers of the factory store), whose snapshot at every read point is compared entry by entry with the objects of ITS namespaces (C02_Comp / C02_CompSpec.P_comp); fixed corpus of 13 such histories; failing dyn histories are shortened; win: the START WINDOW of a monitor (C02_Win): a real monitor is created on the fake cluster (CreateInformers / loadExistedObjects), the cluster is changed (1-8 operations: objects modified inside and outside what the jqFilter selects, deleted and re-created with other content, created, rarely deleted for good = trigger F26), then the monitor is started (the shared informers' own list, OnAdd with isInInitialList, and watch), in 55% of the cases nothing happens afterwards; static bindings (named / all namespaces, nameSelector, repeated entries) and namespace.labelSelector bindings (labelled and unlabelled namespaces), at an operator start and at a restart (35%: a previous monitor has followed a first part of the history and was cancelled); Snapshot() at quiescence compared entry by entry with the matching objects of the final cluster (C02_WinSpec.P_win); fixed corpus of 11 windows; hk: ONE HOOK with bindings of different types (kubernetes, schedule, kubernetesValidating, kubernetesMutating) that may share names (the configuration demands unique names within one type only; a validating and a mutating binding of one name are not generated: they share a webhook id), each with its own includeSnapshotsFrom and group: a real v1 configuration loaded by hook.LoadConfig, a real HookController on a fake cluster with real schedule and admission managers; several executions in one process in every order, the contexts built by the real binding controllers (Synchronization / Event, Schedule, admission events), each execution one UpdateSnapshots call; per execution and context the keys of snapshots, whose objects each list and the objects field show, compared with the binding of the TYPE and name of the context (C02_HookSpec.P_hk); systematic family (5 pairs of types x 3 ways the lists differ x 4 orders) + random hooks (1-3 kubernetes bindings, 0-4 others, 1-4 executions of 1-3 contexts) + corpus of 3; non-trivial = >=3 cluster operations or >=2 contexts; distinct by input"},
+	Spec: core.Spec{Property: "C02", Imports: []string{"C02_Model", "C02_Spec", "C02_Comp", "C02_CompSpec", "C02_Win", "C02_WinSpec", "C02_Hook", "C02_HookSpec", "C02_Corr"}, Corr: "C02_Corr", Triggers: []string{"F25", "F26", "F32", "F31"}, ShrinkKey: "dyn_ops",
+		Rule: "snap: a real monitor on a fake cluster (static namespaces / all namespaces, nameSelector with repeated entries, initial objects, with and without jqFilter .data, keepFullObjectsInMemory true/false; object content = a part the filter selects + a label outside it, 35% of modifications touch only the latter) follows generated create/modify/delete histories over 3 namespaces x 3 names, Snapshot() at quiescence and after a restart compared entry by entry (identity, filterResult, object) with the matching objects of the cluster; upd: the real HookController.UpdateSnapshots over a reader that answers differently on every call, random include topologies and context arrays; grp: a real hook config with two kubernetes bindings sharing a group, named and unnamed (trigger F25); one ghost scenario (trigger F26); dyn: a real monitor with namespace.labelSelector (matchLabels or matchExpressions; its REAL namespace informer on the fake cluster, whose Namespace objects are kept equal to what a label-filtered watch shows; with and without nameSelector / jqFilter / keepFullObjectsInMemory) follows generated histories over 3 namespaces x 3 names of object create/modify/delete (objects moving between namespaces), namespaces created with or without the label / gaining or losing it / deleted (with their objects left behind, or deleted too), changes that keep a namespace matching, and operator restarts; namespaces matching at the start, at a restart and only later all stop matching and match again; Snapshot() at every read point (1-5 per history) compared entry by entry with the objects of the namespaces that match THEN; two histories in five run beside a companion binding of the same kind and names with static namespaces (created before or after the first binding's monitor, also at restarts; same or different debug name; its informers share the first binding's shared informers of the factory store), whose snapshot at every read point is compared entry by entry with the objects of ITS namespaces (C02_Comp / C02_CompSpec.P_comp); fixed corpus of 13 such histories; failing dyn histories are shortened; win: the START WINDOW of a monitor (C02_Win): a real monitor is created on the fake cluster (CreateInformers / loadExistedObjects), the cluster is changed (1-8 operations: objects modified inside and outside what the jqFilter selects, deleted and re-created with other content, created, rarely deleted for good = trigger F26), then the monitor is started (the shared informers' own list, OnAdd with isInInitialList, and watch), in 55% of the cases nothing happens afterwards; static bindings (named / all namespaces, nameSelector, repeated entries) and namespace.labelSelector bindings (labelled and unlabelled namespaces), at an operator start and at a restart (35%: a previous monitor has followed a first part of the history and was cancelled); Snapshot() at quiescence compared entry by entry with the matching objects of the final cluster (C02_WinSpec.P_win); fixed corpus of 11 windows; hk: ONE HOOK with bindings of different types (kubernetes, schedule, kubernetesValidating, kubernetesMutating) that may share names (the configuration demands unique names within one type only; a validating and a mutating binding of one name are not generated: they share a webhook id, the recorded finding F31, C02_hook_refuted_vm), each with its own includeSnapshotsFrom and group: a real v1 configuration loaded by hook.LoadConfig, a real HookController on a fake cluster with real schedule and admission managers; several executions in one process in every order, the contexts built by the real binding controllers (Synchronization / Event, Schedule, admission events), each execution one UpdateSnapshots call; per execution and context the keys of snapshots, whose objects each list and the objects field show, compared with the binding of the TYPE and name of the context (C02_HookSpec.P_hk); systematic family (5 pairs of types x 3 ways the lists differ x 4 orders) + random hooks (1-3 kubernetes bindings, 0-4 others, 1-4 executions of 1-3 contexts) + corpus of 3; non-trivial = >=3 cluster operations or >=2 contexts; distinct by input"},
 	Gen: Gen, Run: Run, Render: Render, PerShard: 400, Workers: 8, CaseTimout: 40 * time.Second,
 }
